@@ -117,6 +117,9 @@ pub(crate) enum State {
 #[cfg_attr(feature = "defmt-03", derive(defmt::Format))]
 pub enum Error {
     NotJoined,
+    /// The uplink (application payload plus the MAC answers that have to go with it) does not fit
+    /// a LoRaWAN frame or the radio buffer.
+    PayloadTooLong,
     #[cfg(feature = "multicast")]
     Multicast(multicast::Error),
 }
@@ -191,6 +194,14 @@ impl Mac {
     ) -> Result<(radio::TxConfig, RxWindows, FcntUp)> {
         let fcnt = match &mut self.state {
             State::Joined(session) => {
+                // MHDR, FHDR (7 octets + FOpts), FPort, FRMPayload and MIC have to fit the PHY
+                // payload (255 octets) and the radio buffer: refuse instead of failing to
+                // assemble the frame.
+                let f_opts_len =
+                    if send_data.fport == 0 { 0 } else { session.uplink.mac_commands().len() };
+                if 1 + 7 + f_opts_len + 1 + send_data.data.len() + 4 > core::cmp::min(N, 255) {
+                    return Err(Error::PayloadTooLong);
+                }
                 Ok(session.prepare_buffer::<N>(send_data, buf, &self.configuration, &self.region))
             }
             State::Otaa(_) => Err(Error::NotJoined),
